@@ -38,7 +38,8 @@ static const std::vector<std::string> kKeys = {"a", "b", "c", "d", "e", "key", "
                                                 near_key(13, 4, '1'), near_key(13, 4, '2'), near_key(14, 5, '1'), near_key(14, 5, '2'),
                                                 near_key(15, 6, '1'), near_key(15, 6, '2'), near_key(33, 32, '1'), near_key(33, 32, '2'),
                                                 near_key(66, 33, '1'), near_key(66, 33, '2'), near_key(70, 36, '1'), near_key(70, 36, '2'),
-                                                near_key(97, 64, '1'), near_key(97, 64, '2'), near_key(97, 70, '\xc3')};
+                                                near_key(97, 64, '1'), near_key(97, 64, '2'), near_key(97, 70, '\xc3'),
+                                                std::string("a\0b", 3), std::string("a\0c", 3), std::string("\0", 1)};
 static const std::vector<std::string> kConstStrings = {"", "const", "const string with \"quotes\" and \\ backslash",
                                                         "0123456789abcdef0123456789abcdef0123456789abcdef0123456789abcdef!"};
 
@@ -468,6 +469,16 @@ struct World {
         N* ns = node_at(static_cast<N&>(*docs[dj].doc), docs[dj].model, ps);
         // a const-string node not copied keeps pointing at static storage: fine (kConstStrings are static)
         nt->CopyFrom(*ns, alloc, copy_string);
+        if (copy_string) {
+          // copyString=true: the copy owns every string and every member name (nothing keeps pointing at caller / static storage)
+          std::function<bool(const N&)> borrowed = [&](const N& x) -> bool {
+            if (x.IsString()) return x.IsStringConst();
+            if (x.IsArray()) { for (auto it = x.Begin(); it != x.End(); ++it) if (borrowed(*it)) return true; }
+            if (x.IsObject()) { for (auto it = x.MemberBegin(); it != x.MemberEnd(); ++it) if (it->name.IsStringConst() || borrowed(it->value)) return true; }
+            return false;
+          };
+          if (borrowed(*nt)) return "!CopyFrom(copyString=true) left a borrowed (constant) string or member name in the copy";
+        }
         MV copy = *ms;
         clear_maps(copy);
         *mt = copy;
